@@ -1,0 +1,117 @@
+//go:build verif
+
+package query
+
+import (
+	"encoding/hex"
+	"fmt"
+	"strings"
+)
+
+// Verification exports (build tag "verif" only): read-only views of package internals for the
+// verification harness. Nothing here is compiled without the tag.
+
+// VerifExtractSnippets runs the tokenizer and returns the snippet texts.
+func VerifExtractSnippets(text string) ([]string, error) {
+	snippets, err := extractSnippets(text)
+	if err != nil {
+		return nil, err
+	}
+	out := make([]string, len(snippets))
+	for i, s := range snippets {
+		out[i] = s.text
+	}
+	return out, nil
+}
+
+func verifHex(s string) string {
+	if s == "" {
+		return "-"
+	}
+	return hex.EncodeToString([]byte(s))
+}
+
+// VerifDump renders the structure of a query canonically (strings in hex, "-" for the empty string).
+func VerifDump(q *Query) string {
+	where := "-"
+	if q.where != nil {
+		where = VerifDumpCondition(q.where)
+	}
+	checked := 0
+	if q.checked {
+		checked = 1
+	}
+	return fmt.Sprintf("Q(%s,%s,%s,%s,%d,%d,%d)", verifHex(q.dbName), verifHex(q.dbKeyPrefix), where, verifHex(q.orderBy), q.limit, q.offset, checked)
+}
+
+// VerifDumpCondition renders the structure of a condition canonically.
+func VerifDumpCondition(c Condition) string {
+	list := func(cs []Condition) string {
+		all := make([]string, 0, len(cs))
+		for _, m := range cs {
+			all = append(all, VerifDumpCondition(m))
+		}
+		return strings.Join(all, ";")
+	}
+	bad := func(kind string, operator uint8) (string, bool) {
+		if operator == errorPresent {
+			return "X(" + kind + ")", true
+		}
+		return "", false
+	}
+	switch v := c.(type) {
+	case *andCond:
+		return "A[" + list(v.conditions) + "]"
+	case *orCond:
+		return "O[" + list(v.conditions) + "]"
+	case *notCond:
+		return "N[" + VerifDumpCondition(v.notC) + "]"
+	case *intCondition:
+		if s, ok := bad("int", v.operator); ok {
+			return s
+		}
+		return fmt.Sprintf("I(%s,%d,%d)", verifHex(v.key), v.operator, v.value)
+	case *floatCondition:
+		if s, ok := bad("float", v.operator); ok {
+			return s
+		}
+		return fmt.Sprintf("F(%s,%d,%s)", verifHex(v.key), v.operator, verifHex(fmt.Sprintf("%g", v.value)))
+	case *stringCondition:
+		if s, ok := bad("string", v.operator); ok {
+			return s
+		}
+		return fmt.Sprintf("S(%s,%d,%s)", verifHex(v.key), v.operator, verifHex(v.value))
+	case *stringSliceCondition:
+		if s, ok := bad("slice", v.operator); ok {
+			return s
+		}
+		items := make([]string, 0, len(v.value))
+		for _, it := range v.value {
+			items = append(items, verifHex(it))
+		}
+		return fmt.Sprintf("L(%s,%d,%s)", verifHex(v.key), v.operator, strings.Join(items, ";"))
+	case *regexCondition:
+		if s, ok := bad("regex", v.operator); ok {
+			return s
+		}
+		return fmt.Sprintf("R(%s,%d,%s)", verifHex(v.key), v.operator, verifHex(v.regex.String()))
+	case *boolCondition:
+		if s, ok := bad("bool", v.operator); ok {
+			return s
+		}
+		b := 0
+		if v.value {
+			b = 1
+		}
+		return fmt.Sprintf("B(%s,%d,%d)", verifHex(v.key), v.operator, b)
+	case *existsCondition:
+		if s, ok := bad("exists", v.operator); ok {
+			return s
+		}
+		return fmt.Sprintf("E(%s,%d)", verifHex(v.key), v.operator)
+	case *errorCondition:
+		return "X(operator)"
+	default:
+		return fmt.Sprintf("?(%T)", c)
+	}
+}
